@@ -88,6 +88,53 @@ def r4_split_or_guard_arms(text):
     return out, n
 
 
+def r3_index_loops(text):
+    """R3: `for PAT in &mut E {B}` / `for PAT in &E {B}` / `for &PAT in &E {B}` /
+    `for (I, PAT) in E.iter().enumerate() {B}` become index loops (the textbook desugaring;
+    the index is advanced at the top of the body so that `continue` / `break` keep their
+    meaning).  E must be a simple place expression (identifiers, dots)."""
+    n = 0
+    out = text
+    pats = [
+        (r"for\s+\((\w+),\s*(&?\w+)\)\s+in\s+([\w.]+)\.iter\(\)\.enumerate\(\)\s*\{", "enum"),
+        (r"for\s+(&?\w+)\s+in\s+&mut\s+([\w.]+)\s*\{", "mut"),
+        (r"for\s+(&?\w+)\s+in\s+&([\w.]+)\s*\{", "ref"),
+        (r"for\s+(&?\w+)\s+in\s+([\w.]+)\.iter\(\)\s*\{", "ref"),
+    ]
+    while True:
+        mask = rustscan.code_mask(out)
+        hit = None
+        for (pat, kind) in pats:
+            for mm in re.finditer(pat, out):
+                if mask[mm.start()] and (hit is None or mm.start() < hit[0].start()):
+                    hit = (mm, kind)
+                    break
+        if not hit:
+            break
+        mm, kind = hit
+        k = n
+        if kind == "enum":
+            ivar, pvar, expr = mm.group(1), mm.group(2), mm.group(3)
+        else:
+            ivar, pvar, expr = "__i%d" % k, mm.group(1), mm.group(2)
+        deref = pvar.startswith("&")
+        pv = pvar.lstrip("&")
+        elem = "%s[__k%d]" % (expr, k)
+        if kind == "mut":
+            bind = "let %s = &mut %s;" % (pv, elem)
+        elif deref:
+            bind = "let %s = %s;" % (pv, elem)
+        else:
+            bind = "let %s = &%s;" % (pv, elem)
+        if kind == "enum":
+            head = "let mut __n%d: usize = 0; while __n%d < %s.len() { let %s = __n%d; let __k%d = __n%d; __n%d += 1; %s" % (k, k, expr, ivar, k, k, k, k, bind)
+        else:
+            head = "let mut __n%d: usize = 0; while __n%d < %s.len() { let __k%d = __n%d; __n%d += 1; %s" % (k, k, expr, k, k, k, bind)
+        out = out[:mm.start()] + head + out[mm.end():]
+        n += 1
+    return out, n
+
+
 def strip_comments(text):
     """Remove // and /* */ comments (R1) but keep string literals intact."""
     mask = rustscan.code_mask(text)
